@@ -10,7 +10,7 @@ nil/fresh dst.  `IpOk sel m r`: result content `sel` (even in order), argument a
 of the original, result = front portion of the argument.
 All theorems are for arbitrary element values, lengths, duplicates and `Int` arguments.
 -/
-import Golib.Proof.C14Flex
+import Golib.Proof.C14FirstOcc
 
 namespace Golib.C14
 
@@ -50,6 +50,17 @@ theorem c14_unique_alias (key : Int → Int) (d : Dst) (n1 : Bool) (M : Mem) :
     (∃ r, unique d n1 M = some r ∧ DstOk (firstOcc id [] M.m1) d n1 M r) :=
   ⟨uniqueByKey_spec key d n1 M, uniqueByKey_spec id d n1 M⟩
 
+/-- Meaning of `firstOcc` (the Unique/UniqueByKey result): cutting the slice at any element
+`v`, `v` is kept — at its position — iff its key occurs neither before the call (`seen`, empty
+for the Go functions) nor among the earlier elements; otherwise it is dropped. -/
+theorem c14_unique_first (key : Int → Int) (seen a b : List Int) (v : Int) :
+    ((a.map key ++ seen).contains (key v) = false →
+      firstOcc key seen (a ++ v :: b) =
+        firstOcc key seen a ++ v :: firstOcc key (key v :: (a.map key ++ seen)) b) ∧
+    ((a.map key ++ seen).contains (key v) = true →
+      firstOcc key seen (a ++ v :: b) = firstOcc key seen a ++ firstOcc key (a.map key ++ seen) b) :=
+  ⟨firstOcc_keep key seen a b v, firstOcc_drop key seen a b v⟩
+
 /-- The InPlace variants: same elements as the non-in-place result (even in the same
 order), the argument ends as a permutation of its original content, never a panic. -/
 theorem c14_inplace_perm (p : Int → Bool) (key : Int → Int) (n1 : Bool) (m1 m2 : List Int) :
@@ -78,6 +89,19 @@ theorem c14_chunk_sizes (len size : Nat) (hs : 1 ≤ size) :
     (∀ v ∈ (chunkViews len size).dropLast, v.2 = size) ∧
     (∀ v ∈ chunkViews len size, 1 ≤ v.2 ∧ v.2 ≤ size) :=
   chunkViews_sizes len size hs
+
+/-- `ChunkProcess` never panics; `process` is called on exactly `Chunk`'s pieces, in order,
+and the iteration stops at (and reports) the first error (`failAt` = index of the failing
+call, 0 = never). -/
+theorem c14_chunkprocess (len : Nat) (chunkSize : Int) (failAt : Nat) :
+    chunkProcess len chunkSize failAt = some (procCalls (pieces len chunkSize) failAt) :=
+  chunkProcess_spec len chunkSize failAt
+
+/-- `Values` never panics and returns `fn` mapped over the concatenation of its arguments
+(in the `make([]V, n)` array: fresh memory by construction). -/
+theorem c14_values (fn : Int → Int) (ss : List (List Int)) :
+    values fn ss = some (ss.flatten.map fn) :=
+  values_spec fn ss
 
 /-- `SubSlice` never panics for any `Int` arguments and returns the documented clamped
 range (`subRange`: negative start = 0, negative/oversized end = len, empty range = nil),
